@@ -102,7 +102,12 @@ is_6531_local (const char *start, const char *end)
             qpair = 0;
         else {
             switch (ch) {
-            case '"':   quote = 0; break;
+            case '"': {
+                int pos = utf8_decode_at_byte(&u);
+                if ((start + pos + 1) < end && start[pos + 1] != '.')
+                    return inverse(EEAV_LPART_MISPLACED_QUOTE);
+                quote = 0;
+            } break;
             case '\\':  qpair = 1; break;
 #ifdef RFC6531_FOLLOW_RFC5322
             /* the next chars are not allowed in qtext: */
@@ -117,14 +122,15 @@ is_6531_local (const char *start, const char *end)
                         goto next;
                 }
 
-                if ((ch = utf8_decode_next (&u)) >= 0) {
-                    if (ch > 0x007f)
+                /* look at the next byte without consuming it */
+                if (start + utf8_decode_at_byte (&u) + 1 < end) {
+                    int nx = (unsigned char) start[utf8_decode_at_byte (&u) + 1];
+
+                    if (nx > 0x007f)
                         break;
 
-                    switch (ch) {
+                    switch (nx) {
                         case '"':
-                            quote = !quote;
-                            break;
                         case '\n': case '\r': case '\t': case ' ':
                             break;
                         default:
